@@ -242,6 +242,40 @@ def bids(ctx, obs):
         first_param = f.node.args.args[1].arg if len(f.node.args.args) > 1 else None
         obs.check(isinstance(base, ast.Name) and base.id == first_param, 'TAB', q, f'{m} starts from the base file', '', '',
                   where(prog, f, calls[0]))
+    # the look-up returns the file AT the rebuilt path: every returned object is built from the full rebuilt path (or comes out of
+    # a store that is keyed by the full path); an object fetched by a key that forgets part of the path (basename, stem, a subset
+    # of the entities) is the file of whichever base was looked up first
+    for m in want:
+        q = 'io.bids.BidsLayout.' + m
+        f = prog.func(q)
+        r = ctx.dep.result(q)
+        path_vars = {s_.targets[0].id for s_ in ast.walk(f.node) if isinstance(s_, ast.Assign) and isinstance(s_.targets[0], ast.Name)
+                     and isinstance(s_.value, ast.Call) and _leaf(s_.value.func) == '_replace'}
+        for node, _, _ in r.returns:
+            if node is None or node.value is None:
+                continue
+            v = node.value
+            con = f'{m} returns the file at the rebuilt path'
+            if isinstance(v, ast.Call) and v.args and ((isinstance(v.args[0], ast.Name) and v.args[0].id in path_vars)
+                                                        or (isinstance(v.args[0], ast.Call) and _leaf(v.args[0].func) == '_replace')):
+                obs.ok('LOOKUP', q, con, f'`{norm(v)[:60]}`', where(prog, f, node))
+            elif isinstance(v, ast.Subscript) and isinstance(v.value, ast.Attribute):
+                key = v.slice
+                kdefs = [d.rhs for i in (r.load_defs.get(id(key), ()) if isinstance(key, ast.Name) else ()) for d in [r.defs[i]]]
+                full = (isinstance(key, ast.Name) and key.id in path_vars) or \
+                    (kdefs and all(isinstance(k, ast.Name) and k.id in path_vars for k in kdefs))
+                lossy = [k for k in ([key] + kdefs) if isinstance(k, ast.Call) and _leaf(k.func) in
+                         ('basename', 'split', 'splitext', 'stem', 'name', 'rsplit', 'partition', 'dirname')]
+                if full:
+                    obs.ok('LOOKUP', q, con, f'store keyed by the full path `{norm(key)}`', where(prog, f, node))
+                elif lossy:
+                    obs.bad('LOOKUP', q, con, f'`{norm(v)[:60]}` hands out an object stored under `{norm(lossy[0])[:40]}`, which forgets part of '
+                            f'the path (directory / derivative): a look-up for a file of the same name elsewhere in the tree returns the '
+                            f'object of the file that was looked up first', where(prog, f, node))
+                else:
+                    obs.unk('LOOKUP', q, con, f'`{norm(v)[:60]}`: key of the store not recognised', where(prog, f, node))
+            else:
+                obs.unk('LOOKUP', q, con, f'`{norm(v)[:60]}`', where(prog, f, node))
     # derivative directory position
     txt = ast.unparse(fd.node).replace(' ', '')
     obs.soft("parts[0]=='derivatives'" in txt and 'self.derivative=parts[1]' in txt, 'TAB', qd,
@@ -654,9 +688,40 @@ def skip_leak(ctx, obs, q, rule='SKIP-LEAK'):
         obs.ok(rule, q, 'variables that survive a skipping loop are only changed by accepted items', '', where(prog, f, f.node))
 
 
+def sequence_guard(ctx, obs, q, rule='SEQ-GUARD'):
+    """The vectors of several tasks are stacked into one RDMs object under ONE list of stimulus names: a task may only be stacked when
+    its stimuli are the same SEQUENCE as the reference (the vector form is positional).  The guard that skips deviating tasks must
+    therefore compare the lists themselves - a comparison of set(..) / sorted(..) / Counter(..) of them lets a task with the same
+    stimuli in another order through, and its dissimilarities end up under the wrong pairs of names."""
+    prog = ctx.prog
+    f = prog.func(q)
+    n = 0
+    for lp in [x for x in ast.walk(f.node) if isinstance(x, ast.For)]:
+        for st in ast.walk(lp):
+            if not (isinstance(st, ast.If) and any(isinstance(x, ast.Continue) for b in st.body for x in ast.walk(b))):
+                continue
+            for c in [x for x in ast.walk(st.test) if isinstance(x, ast.Compare) and len(x.ops) == 1 and isinstance(x.ops[0], (ast.NotEq, ast.Eq))]:
+                sides = [c.left, c.comparators[0]]
+                if any(isinstance(s_, ast.Constant) for s_ in sides):
+                    continue
+                n += 1
+                con = f'the guard `{norm(c)[:60]}` compares the name lists as sequences'
+                unordered = [s_ for s_ in sides if isinstance(s_, ast.Call) and _leaf(s_.func) in ('set', 'frozenset', 'sorted', 'Counter', 'unique')]
+                if unordered:
+                    obs.bad(rule, q, con, f'`{norm(c)[:80]}` ignores the order of the names: a task that lists the same stimuli in another order '
+                            f'is stacked with the others although its (positional) dissimilarity vector refers to other pairs',
+                            where(prog, f, c))
+                else:
+                    obs.ok(rule, q, con, '', where(prog, f, c))
+    if n == 0:
+        obs.unk(rule, q, 'tasks whose stimuli deviate from the reference list are skipped', 'no skipping guard with a comparison found',
+                where(prog, f, f.node))
+
+
 def meadows(ctx, obs):
     prog = ctx.prog
     skip_leak(ctx, obs, 'io.meadows.load_rdms_comps_json')
+    sequence_guard(ctx, obs, 'io.meadows.load_rdms_comps_json')
     q = 'io.meadows.load_rdms'
     f = prog.func(q)
     g = [n for n in ast.walk(f.node) if isinstance(n, ast.If) and isinstance(n.test, ast.Name) and n.test.id == 'sort']
